@@ -27,12 +27,18 @@ type secSpec struct {
 	global  [][]int
 	ops     []secOp
 	convErr bool // every operation declares the same default error response (convenient errors become active)
+	// schemes of a kind the generator does not implement (openIdConnect); the spec is then generated with
+	// ignore_not_implemented, which skips every alternative that names one of them
+	unimpl map[int]bool
 }
 
 func (s secSpec) doc() string {
 	schemes := map[string]any{}
 	for i := 0; i < s.k; i++ {
 		schemes[fmt.Sprintf("S%d", i)] = map[string]any{"type": "apiKey", "in": "header", "name": fmt.Sprintf("X-S%d", i)}
+		if s.unimpl[i] {
+			schemes[fmt.Sprintf("S%d", i)] = map[string]any{"type": "openIdConnect", "openIdConnectUrl": "https://example.com/.well-known/openid-configuration"}
+		}
 	}
 	mkReq := func(reqs [][]int) []any {
 		out := []any{}
@@ -74,10 +80,24 @@ func (s secSpec) effective(op secOp) [][]int {
 	if op.none {
 		return nil
 	}
+	reqs := s.global
 	if op.reqs != nil {
-		return op.reqs
+		reqs = op.reqs
 	}
-	return s.global
+	if s.unimpl == nil {
+		return reqs
+	}
+	var out [][]int
+	for _, alt := range reqs {
+		skip := false
+		for _, g := range alt {
+			skip = skip || s.unimpl[g]
+		}
+		if !skip {
+			out = append(out, alt)
+		}
+	}
+	return out
 }
 
 func genReqs(rng *lp.Rand, k int) [][]int {
@@ -238,13 +258,44 @@ func c09(r *lp.Run) {
 		cg.ops = append(cg.ops, secOp{name: "g0"}, secOp{name: "g1", none: true}, secOp{name: "g2", reqs: genReqs(rng, 9)})
 		specs = append(specs, cg)
 	}
+	// alternatives that name a scheme of a kind the generator does not implement are skipped under
+	// ignore_not_implemented; what is left must still be evaluated as written
+	{
+		ni := secSpec{k: 5, unimpl: map[int]bool{3: true}}
+		for i, reqs := range [][][]int{{{0, 3}, {0, 1}}, {{3}, {1}}, {{0, 3}, {1, 2}, {0, 2}}, {{1, 3}, {0}, {0, 1}}, {{0, 1, 3}, {1, 2}, {3, 4}, {0, 4}}, {{2, 3}, {2, 4}}, {{4, 3}, {4}}, {{0}, {0, 3}, {1}}} {
+			ni.ops = append(ni.ops, secOp{name: fmt.Sprintf("ni%d", i), reqs: reqs})
+		}
+		specs = append(specs, ni)
+		ng := secSpec{k: 4, unimpl: map[int]bool{1: true}, global: [][]int{{0, 1}, {0, 2}}}
+		ng.ops = append(ng.ops, secOp{name: "g0"}, secOp{name: "g1", reqs: [][]int{{0, 1}, {2, 3}, {0, 3}}}, secOp{name: "g2", none: true})
+		specs = append(specs, ng)
+		for i := 0; i < r.N(2, 12); i++ {
+			k := 6
+			rs := secSpec{k: k, unimpl: map[int]bool{rng.Intn(k): true, rng.Intn(k): true}}
+			for j := 0; j < 6; j++ {
+				reqs := genReqs(rng, k)
+				if len(rs.effective(secOp{reqs: reqs})) == 0 {
+					// every alternative skipped would leave the operation without any requirement: not explored
+					continue
+				}
+				rs.ops = append(rs.ops, secOp{name: fmt.Sprintf("r%d", j), reqs: reqs})
+			}
+			if len(rs.ops) > 0 {
+				specs = append(specs, rs)
+			}
+		}
+	}
 	type built struct {
 		spec secSpec
 		pkg  *gc.Pkg
 	}
 	var bs []built
 	for i, s := range specs {
-		pkg, err := mod.Add(fmt.Sprintf("sec%d", i), []byte(s.doc()), gen.Options{})
+		opts := gen.Options{}
+		if s.unimpl != nil {
+			opts.Generator.IgnoreNotImplemented = []string{"all"}
+		}
+		pkg, err := mod.Add(fmt.Sprintf("sec%d", i), []byte(s.doc()), opts)
 		if err != nil {
 			r.Fail(lp.PropFail{Property: "C09", What: "the generator refuses a feature-matrix security spec", Input: s.doc(), Observed: err.Error(), Expected: "generated package"})
 			continue
@@ -276,6 +327,16 @@ func c09(r *lp.Run) {
 	}
 }
 
+func usedSchemes(reqs [][]int) map[int]bool {
+	m := map[int]bool{}
+	for _, alt := range reqs {
+		for _, g := range alt {
+			m[g] = true
+		}
+	}
+	return m
+}
+
 func c09Op(r *lp.Run, rng *lp.Rand, drv *gc.Driver, spec secSpec, pkg *gc.Pkg, op secOp) {
 	// find the IR operation
 	var irSecs []string // scheme type names in index order
@@ -297,37 +358,43 @@ func c09Op(r *lp.Run, rng *lp.Rand, drv *gc.Driver, spec secSpec, pkg *gc.Pkg, o
 		return
 	}
 	eff := spec.effective(op)
-	// expected index assignment: first occurrence order over the effective requirement
+	in := map[string]any{"schemes": spec.k, "requirement": reqStr(eff), "operation": op.name}
+	if spec.unimpl != nil {
+		in["not_implemented_schemes"] = fmt.Sprint(spec.unimpl)
+	}
+	// the operation's own scheme list: which index a scheme gets is the generator's business (first occurrence
+	// today), but the list has no duplicates and holds every scheme of the effective requirement; it may hold
+	// more (a scheme met in an alternative that was skipped afterwards)
+	r.PropCheck()
 	idxOf := map[int]int{}
 	var order []int
-	for _, alt0 := range eff {
-		// within one alternative the document lists the schemes in the order json.Marshal gives
-		// the object's members: lexicographic by name
-		alt := append([]int{}, alt0...)
-		sort.Slice(alt, func(i, j int) bool { return fmt.Sprintf("S%d", alt[i]) < fmt.Sprintf("S%d", alt[j]) })
-		for _, g := range alt {
-			if _, ok := idxOf[g]; !ok {
-				idxOf[g] = len(order)
-				order = append(order, g)
-			}
+	for i, name := range irSecs {
+		var g int
+		if _, err := fmt.Sscanf(name, "S%d", &g); err != nil || fmt.Sprintf("S%d", g) != name {
+			r.Fail(lp.PropFail{Property: "C09", What: "the operation's scheme list holds something that is not a scheme of the document", Input: in, Observed: strings.Join(irSecs, ","), Expected: "S<i> names"})
+			return
 		}
+		if _, dup := idxOf[g]; dup {
+			r.Fail(lp.PropFail{Property: "C09", What: "the operation's scheme list holds a scheme twice", Input: in, Observed: strings.Join(irSecs, ","), Expected: "no duplicates"})
+			return
+		}
+		idxOf[g] = i
+		order = append(order, g)
 	}
-	in := map[string]any{"schemes": spec.k, "requirement": reqStr(eff), "operation": op.name}
-	// local requirement (indices into the operation's own scheme list)
 	local := make([][]int, len(eff))
 	for i, alt := range eff {
 		local[i] = []int{}
 		for _, g := range alt {
-			local[i] = append(local[i], idxOf[g])
+			x, ok := idxOf[g]
+			if !ok {
+				r.Fail(lp.PropFail{Property: "C09", What: "a scheme of the effective requirement is missing from the operation's scheme list (or the operation-level requirement does not replace the global one)", Input: in, Observed: strings.Join(irSecs, ","), Expected: fmt.Sprintf("… S%d …", g)})
+				return
+			}
+			local[i] = append(local[i], x)
 		}
 	}
-	r.PropCheck()
-	wantSecs := make([]string, len(order))
-	for i, g := range order {
-		wantSecs[i] = fmt.Sprintf("S%d", g)
-	}
-	if strings.Join(irSecs, ",") != strings.Join(wantSecs, ",") {
-		r.Fail(lp.PropFail{Property: "C09", What: "scheme index assignment differs from first-occurrence order (or the operation-level requirement does not replace the global one)", Input: in, Observed: strings.Join(irSecs, ","), Expected: strings.Join(wantSecs, ",")})
+	if spec.unimpl == nil && len(order) != len(usedSchemes(eff)) {
+		r.Fail(lp.PropFail{Property: "C09", What: "the operation's scheme list holds schemes its requirement does not name (or the operation-level requirement does not replace the global one)", Input: in, Observed: strings.Join(irSecs, ","), Expected: fmt.Sprint(len(usedSchemes(eff)), " schemes")})
 		return
 	}
 	if len(irMasks) != len(local) {
